@@ -54,14 +54,27 @@ func (P *Prog) failureReturnGuards() map[string][]failureRet {
 			}
 			idx, want = res.Len()-1, "false"
 		}
-		for _, ret := range Returns(f) {
-			c, t := P.retClass(ret, idx)
-			fr := failureRet{fn: f, ret: ret}
+		n := short(f.String())
+		// one alternative per returned value and incoming edge (a merged `return ok && valid` is split like the
+		// written-out early returns)
+		for _, a := range P.RetAlternatives(f, idx) {
+			c, t := altClass(a)
+			fr := failureRet{fn: f, ret: a.Ret}
+			boolExpr := false
 			if c != want {
-				if !(want == "nonnil" && c == "unknown" && t != nil && (t.Op == "call" || t.Op == "invoke" || t.Op == "extract")) {
+				if want == "false" && c == "unknown" && t != nil && t.Op != "zero" {
+					boolExpr = true // `return a.IsAllGTE(b)`: refuses exactly when the expression is false
+				} else if !(want == "nonnil" && c == "unknown" && t != nil && (t.Op == "call" || t.Op == "invoke" || t.Op == "extract")) {
 					continue
 				}
 				fr.forward = true
+			}
+			if boolExpr {
+				gs := append(P.stableOf(a.G), canonAtom("!"+t.String()))
+				sort.Strings(gs)
+				fr.guards = gs
+				out[n] = append(out[n], fr)
+				continue
 			}
 			if t != nil {
 				ct := t
@@ -72,28 +85,60 @@ func (P *Prog) failureReturnGuards() map[string][]failureRet {
 					fr.cause = P.Fn(ct.Name)
 				}
 			}
-			n := short(f.String())
-			// a return that several branches jump to (`if a || b { return err }`): one failure per incoming edge
-			sets := [][]Atom{P.LocalGuards(ret)}
-			if edges := P.retEntryEdges(ret); len(edges) > 1 && !fr.forward {
-				sets = edges
-			}
-			for _, set := range sets {
-				gs := P.stableOf(set)
-				if fr.forward {
-					// as a failure a forwarding return carries the opposite of the implicit success atom
-					if k := canonAtom("!isnil(" + t.String() + ")"); !(strings.Contains(k, "phi(") || strings.Contains(k, "loop") || strings.Contains(k, "next(range(")) {
-						gs = append(gs, k)
-						sort.Strings(gs)
+			gs := P.stableOf(a.G)
+			if fr.forward {
+				// as a failure a forwarding return carries the opposite of the implicit success atom
+				var kept []string
+				for _, g := range gs {
+					if g != canonAtom("isnil("+t.String()+")") {
+						kept = append(kept, g)
 					}
 				}
-				x := fr
-				x.guards = gs
-				out[n] = append(out[n], x)
+				gs = kept
+				if k := canonAtom("!isnil(" + t.String() + ")"); !(strings.Contains(k, "phi(") || strings.Contains(k, "loop") || strings.Contains(k, "next(range(")) {
+					gs = append(gs, k)
+					sort.Strings(gs)
+				}
 			}
+			fr.guards = gs
+			out[n] = append(out[n], fr)
 		}
 	}
 	return out
+}
+
+// altClass classifies one return alternative the way retClass classifies a return: "nil", "nonnil", "true", "false"
+// or "unknown".
+func altClass(a RetAlt) (string, *Term) {
+	t := a.T
+	if t == nil {
+		return "unknown", nil
+	}
+	switch {
+	case t.Op == "const" && (t.Name == "nil" || t.Name == "true" || t.Name == "false"):
+		return t.Name, t
+	case t.Op == "zero":
+		return "unknown", t
+	case t.Op == "call" && errCtorRe.MatchString(t.Name):
+		return "nonnil", t
+	case t.Op == "invoke" && (strings.HasSuffix(t.Name, ".Result") || strings.HasSuffix(t.Name, ".TraceSDK") || strings.HasSuffix(t.Name, ".WithDefaultCodespace")):
+		return "nonnil", t
+	}
+	for _, g := range a.G {
+		if g.T.Op == "call" && g.T.Name == "isnil" && len(g.T.Args) == 1 && g.T.Args[0].String() == t.String() {
+			if g.Pos {
+				return "nil", t
+			}
+			return "nonnil", t
+		}
+		if g.T.String() == t.String() {
+			if g.Pos {
+				return "true", t
+			}
+			return "false", t
+		}
+	}
+	return "unknown", t
 }
 
 func dumpFailureGuards(P *Prog) {
@@ -164,33 +209,36 @@ func failureGuardsMonotone(r *Run, rule string) {
 			if viaNew {
 				continue
 			}
-			ok := false
-			var best []string
-			for _, w := range want {
-				var missing []string
-				for _, g := range w {
-					if !hs[g] {
-						missing = append(missing, g)
-					}
+			_ = hs
+			uni := atomUniverse(n, want)
+			var unknown []string
+			for _, g := range s.guards {
+				if unstableAtom(g) {
+					continue
 				}
-				if len(missing) == 0 {
-					ok = true
-					break
-				}
-				if best == nil || len(missing) < len(best) {
-					best = missing
+				if !uni[symKey(g)] {
+					unknown = append(unknown, g)
 				}
 			}
+			// a test that a callee of this function makes on the same arguments to refuse (a re-stated refusal in front
+			// of the call, and its outcome carried along to the later returns) decides nothing new
+			if len(unknown) > 0 {
+				ca := P.calleeRefusalAtoms(s.fn, pinned)
+				var still []string
+				for _, g := range unknown {
+					if !ca[symKey(g)] {
+						still = append(still, g)
+					}
+				}
+				unknown = still
+			}
+			ok := len(unknown) == 0
 			if !ok && P.refusalRestatesCallee(s, pinned) {
 				ok = true
 			}
 			if !ok {
 				fresh++
-				why := "no failure return of the pinned tree"
-				if best != nil {
-					why = "the closest pinned failure also required {" + strings.Join(best, " ; ") + "}"
-				}
-				r.Viol(rule, fmt.Sprintf("new-refusal:%s#%d", n, i), P.InstrPos(s.ret), n+" now fails under {"+strings.Join(s.guards, " ; ")+"} — "+why+": a new cause of refusal")
+				r.Viol(rule, fmt.Sprintf("new-refusal:%s#%d", n, i), P.InstrPos(s.ret), n+" now fails under {"+strings.Join(s.guards, " ; ")+"} — the test(s) {"+strings.Join(unknown, " ; ")+"} decided nothing in this function on the pinned tree: a new cause of refusal")
 			}
 		}
 	}
@@ -297,6 +345,46 @@ func (P *Prog) refusalRestatesCallee(s failureRet, pinned map[string][][]string)
 	return false
 }
 
+// calleeRefusalAtoms: the tests (polarity dropped) that the pinned callees of f make to refuse, spelled over the
+// arguments f passes.
+var calleeAtomsCache = map[*ssa.Function]map[string]bool{}
+
+func (P *Prog) calleeRefusalAtoms(f *ssa.Function, pinned map[string][][]string) map[string]bool {
+	if m, ok := calleeAtomsCache[f]; ok {
+		return m
+	}
+	out := map[string]bool{}
+	for _, b := range f.Blocks {
+		for _, in := range b.Instrs {
+			c, ok := in.(ssa.CallInstruction)
+			if !ok {
+				continue
+			}
+			g := staticCallee(c.Common())
+			if g == nil || !P.IsRepoFn(g) || P.isNewHelper(g) {
+				continue
+			}
+			gn := short(g.String())
+			names := pinnedParams[gn]
+			t := P.callTerm(c)
+			if len(pinned[gn]) == 0 || len(names) == 0 || t == nil || len(t.Args) != len(names) {
+				continue
+			}
+			for _, set := range pinned[gn] {
+				for _, a := range set {
+					x := a
+					for i, pn := range names {
+						x = replaceParam(x, pn, t.Args[i].String())
+					}
+					out[symKey(canonAtom(x))] = true
+				}
+			}
+		}
+	}
+	calleeAtomsCache[f] = out
+	return out
+}
+
 var paramTokRe = map[string]*regexp.Regexp{}
 
 // replaceParam substitutes the argument term for `param:name` (whole token) in an atom's spelling.
@@ -307,6 +395,81 @@ func replaceParam(atom, name, arg string) string {
 		paramTokRe[name] = rx
 	}
 	return rx.ReplaceAllLiteralString(atom, arg)
+}
+
+// atomUniverse: every test (ignoring polarity) that decided a failure, a success or a panic of the function on the
+// pinned tree. Guard *sets* change with every harmless restructuring (a reordered `||`, merged ifs, De Morgan); the
+// tests a function makes do not.
+var universeCache = map[string]map[string]bool{}
+
+func atomUniverse(fn string, failureSets [][]string) map[string]bool {
+	if u, ok := universeCache[fn]; ok {
+		return u
+	}
+	u := map[string]bool{}
+	add := func(sets [][]string) {
+		for _, set := range sets {
+			for _, g := range set {
+				u[symKey(g)] = true
+			}
+		}
+	}
+	var tabs []map[string][][]string
+	for _, raw := range [][]byte{pinnedFailureGuardsJSON, pinnedSuccessGuardsJSON, pinnedPanicGuardsJSON} {
+		var m map[string][][]string
+		if json.Unmarshal(raw, &m) == nil {
+			tabs = append(tabs, m)
+		}
+	}
+	for _, m := range tabs {
+		add(m[fn])
+	}
+	add(failureSets)
+	universeCache[fn] = u
+	return u
+}
+
+// unstableAtom: atoms over range elements and opaque containers are spelled differently by equivalent loops.
+func unstableAtom(g string) bool {
+	return strings.Contains(g, "[*]") || strings.Contains(g, "other:") || strings.Contains(g, "phi(") || strings.Contains(g, "loop")
+}
+
+// symKey: an atom without its polarity, with the operands of symmetric library predicates (bytes.Equal) sorted.
+func symKey(g string) string {
+	g = strings.TrimPrefix(g, "!")
+	const eq = "bytes.Equal("
+	i := strings.Index(g, eq)
+	if i < 0 {
+		return g
+	}
+	start := i + len(eq)
+	depth, comma, end := 0, -1, -1
+	for j := start; j < len(g); j++ {
+		switch g[j] {
+		case '(', '[', '{':
+			depth++
+		case ')', ']', '}':
+			if depth == 0 {
+				end = j
+			}
+			depth--
+		case ',':
+			if depth == 0 && comma < 0 {
+				comma = j
+			}
+		}
+		if end >= 0 {
+			break
+		}
+	}
+	if comma < 0 || end < 0 {
+		return g
+	}
+	a, b := strings.TrimSpace(g[start:comma]), strings.TrimSpace(g[comma+1:end])
+	if b < a {
+		a, b = b, a
+	}
+	return g[:start] + a + ", " + b + g[end:]
 }
 
 // inPinnedTree: the function existed on the pinned tree (its parameters are pinned).
@@ -503,4 +666,164 @@ func init() {
 	extend("C16", func(r *Run) { tracingInherited(r, "C16-R17") })
 	// a jailed validator is absent from Tendermint's set only if its removal is a zero-power update (C09)
 	extend("C09", func(r *Run) { r.borrow("C05", "C05-R2", "C09-R15") })
+}
+
+// ---------------------------------------------------------------------------------------------------------------------
+// RPN1 — panics are monotone. Consensus code runs inside BeginBlock / EndBlock / DeliverTx: a panic there halts the
+// chain (or refuses the transaction), so a new cause of panic is a new refusal. For every repo function that panics
+// on the pinned tree, pinned_panic_guards.json records the stable guards of each panic site (`pv -dump panicguards`);
+// on the current tree every panic site whose argument is not the error of a call tested on the way (panic(err) after
+// `err := f(x)` is the forwarding of f's refusal: Must-style wrappers, judged at f) must be protected by at least the
+// guards of some pinned panic site of that function; a function that did not panic before must not start to.
+
+//go:embed pinned_panic_guards.json
+var pinnedPanicGuardsJSON []byte
+
+type panicSite struct {
+	fn     *ssa.Function
+	in     *ssa.Panic
+	guards []string
+}
+
+func (P *Prog) panicSiteGuards() map[string][]panicSite {
+	out := map[string][]panicSite{}
+	for _, f := range P.RepoFns {
+		if len(f.Blocks) == 0 || f.Synthetic != "" || P.isNewHelper(enclosingTop(f)) {
+			continue
+		}
+		for _, b := range f.Blocks {
+			if b != f.Blocks[0] && !reachBlock(f.Blocks[0], b, nil) {
+				continue
+			}
+			if len(b.Instrs) == 0 {
+				continue
+			}
+			pn, ok := b.Instrs[len(b.Instrs)-1].(*ssa.Panic)
+			if !ok {
+				continue
+			}
+			// forwarding the failure of a call: not a cause of its own
+			t := P.TermAt(pn.X, pn)
+			forward := false
+			if t != nil {
+				for _, a := range P.LocalGuards(pn) {
+					if !a.Pos && a.T.Op == "call" && a.T.Name == "isnil" && len(a.T.Args) == 1 && a.T.Args[0].String() == t.String() {
+						forward = true
+					}
+				}
+			}
+			if forward {
+				continue
+			}
+			n := short(f.String())
+			sets := [][]Atom{P.LocalGuards(pn)}
+			if len(b.Preds) > 1 && len(b.Preds) <= 6 {
+				sets = nil
+				for _, p := range b.Preds {
+					k := 0
+					for j, s := range p.Succs {
+						if s == b {
+							k = j
+						}
+					}
+					sets = append(sets, P.EdgeGuards(p, k))
+				}
+			}
+			for _, set := range sets {
+				out[n] = append(out[n], panicSite{f, pn, P.stableOf(set)})
+			}
+		}
+	}
+	return out
+}
+
+func dumpPanicGuards(P *Prog) {
+	m := map[string][][]string{}
+	for n, ps := range P.panicSiteGuards() {
+		for _, s := range ps {
+			g := s.guards
+			if g == nil {
+				g = []string{}
+			}
+			m[n] = append(m[n], g)
+		}
+	}
+	for k := range m {
+		sort.Slice(m[k], func(i, j int) bool { return strings.Join(m[k][i], "|") < strings.Join(m[k][j], "|") })
+	}
+	b, _ := json.MarshalIndent(m, "", " ")
+	fmt.Println(string(b))
+}
+
+func panicGuardsMonotone(r *Run, rule string) {
+	P := r.P
+	r.Rule(rule, "no new way to halt: every panic site of a function in scope whose argument is not the tested error of a call (panic(err) forwards the callee's refusal) is still protected by at least the guards of one of that function's panic sites on the pinned tree (pinned_panic_guards.json); a function that did not panic before does not start to — inside BeginBlock / EndBlock / DeliverTx a panic stops the chain or refuses the transaction. Scope: functions that are anchors of this property's rules or lie in the property's packages", 1)
+	var pinned map[string][][]string
+	if err := json.Unmarshal(pinnedPanicGuardsJSON, &pinned); err != nil || len(pinned) == 0 {
+		r.Undecided(rule, "table", "-", "pinned_panic_guards.json is empty or unreadable")
+		return
+	}
+	cur := P.panicSiteGuards()
+	var names []string
+	for n := range cur {
+		f := P.Fn(n)
+		if f == nil {
+			continue
+		}
+		if r.Anchors[f] || r.Anchors[enclosingTop(f)] || inScope(r.Prop, f) {
+			names = append(names, n)
+		}
+	}
+	sort.Strings(names)
+	nSites, fresh := 0, 0
+	for _, n := range names {
+		want := pinned[n]
+		for i, s := range cur[n] {
+			viaNew := false
+			for _, a := range P.LocalGuards(s.in) {
+				if f := P.atomCalleeFn(a); f != nil && P.isNewHelper(enclosingTop(f)) {
+					viaNew = true
+				}
+			}
+			if viaNew {
+				continue
+			}
+			nSites++
+			hs := map[string]bool{}
+			for _, g := range s.guards {
+				hs[g] = true
+			}
+			_ = hs
+			uni := atomUniverse(n, want)
+			var unknown []string
+			for _, g := range s.guards {
+				if unstableAtom(g) {
+					continue
+				}
+				if !uni[symKey(g)] {
+					unknown = append(unknown, g)
+				}
+			}
+			if len(unknown) > 0 || (len(want) == 0 && len(s.guards) == 0) {
+				fresh++
+				why := "the test(s) {" + strings.Join(unknown, " ; ") + "} decided nothing in this function on the pinned tree"
+				if len(want) == 0 && len(unknown) == 0 {
+					why = "the function did not panic on the pinned tree"
+				}
+				r.Viol(rule, fmt.Sprintf("new-panic:%s#%d", n, i), P.InstrPos(s.in), n+" now panics under {"+strings.Join(s.guards, " ; ")+"} — "+why+": a new way to halt the block or refuse the transaction")
+			}
+		}
+	}
+	r.OK(rule, "panic-sites-compared", "-", fmt.Sprintf("%d panic sites of %d functions in scope compared, %d new", nSites, len(names), fresh))
+}
+
+func init() {
+	for i := 1; i <= 20; i++ {
+		p := fmt.Sprintf("C%02d", i)
+		extend(p, func(r *Run) { panicGuardsMonotone(r, p+"-RPN1") })
+	}
+	// the power-index key and the power a validator reports are one value (C06: a jailed validator leaves the index)
+	extend("C06", func(r *Run) { r.borrow("C05", "C05-R3", "C06-R20") })
+	// re-pruning after a restart with another pruning configuration is tolerated (C12: commit stays possible)
+	extend("C12", func(r *Run) { r.borrow("C13", "C13-R4", "C12-R22") })
 }
